@@ -303,9 +303,14 @@ def one_case(ctx, k):
             dv = os.path.join(d, f"v{v}")
             os.makedirs(dv)
             argv = ["-j", str(cores), "--buffer-size", str(bufsize)] + base
-            run = climon.run(dv, argv, tag="run", trace=True, perturb=pseed, trace_reads=False, timeout=120)
+            # now and then the whole run (reader, workers, writer) has to share one CPU
+            cpus = sorted(os.sched_getaffinity(0))
+            aff = {cpus[(k + v) % len(cpus)]} if rng.random() < 0.12 else None
+            if aff:
+                ctx.count("multicore_runs_confined_to_one_cpu")
+            run = climon.run(dv, argv, tag="run", trace=True, perturb=pseed, trace_reads=False, timeout=120, affinity=aff)
             case = climon.case_record(argv, d, inputs)
-            case.update(k=k, cores=cores, bufsize=bufsize, perturb=pseed)
+            case.update(k=k, cores=cores, bufsize=bufsize, perturb=pseed, one_cpu=bool(aff))
             viol = lambda kind, text: ctx.violation(kind, f"{text}; cores={cores} buffer-size={bufsize} perturbation seed={pseed} argv={argv}", case, klass=kind)
             if run.res.timed_out:
                 if run.res.deadlock:
